@@ -243,3 +243,70 @@ func TestVerifC01Enum(t *testing.T) {
 	rec.Count("skipped-head-on-unordered", skipped)
 	rec.Exhaustive = vt.Thorough()
 }
+
+type sharedCase struct {
+	NShard      int  `json:"nshard"`
+	NRows       int  `json:"nrows"`
+	Materialize bool `json:"materialize"`
+	A           int  `json:"a"`
+	B           int  `json:"b"`
+}
+
+const tShared = "TestVerifC01Shared"
+
+// TestVerifC01Shared enumerates the programs Cogroup(A(s), B(s)) over one
+// shared sub-slice for every ordered pair of consumer kinds.
+func TestVerifC01Shared(t *testing.T) {
+	rec := vt.New("C01", "shared-subslice-pairs",
+		fmt.Sprintf("complete enumeration of Cogroup(A(s), B(s)) over one shared sub-slice s = Map(ReaderFunc) for every ordered pair (A, B) of consumer kinds %v x shard counts {1,2,3} x {plain, Materialize pragma on s} x row counts {3, 40}; same oracle as random-programs; non-trivial = A != B; distinct by case", progen.SharedKinds))
+	h := &harness{}
+	defer func() {
+		if h.sess != nil {
+			h.sess.Close()
+		}
+	}()
+	docs, only := vt.Replays(tShared)
+	for _, d := range docs {
+		var c sharedCase
+		if err := json.Unmarshal(d.Case, &c); err != nil {
+			t.Fatal(err)
+		}
+		rec.Case(true, vt.Hash(string(d.Case)), "replay")
+		if err, sig := h.runProgram(progen.EnumShared(c.NShard, c.NRows, c.Materialize, c.A, c.B)); err != nil {
+			rec.Violation(tShared, sig, err.Error(), c)
+			t.Errorf("replay: %v", err)
+		}
+	}
+	if only || t.Failed() {
+		return
+	}
+	idx := 0
+	failed := map[string]bool{}
+	for a := range progen.SharedKinds {
+		for b := range progen.SharedKinds {
+			for _, nshard := range []int{1, 2, 3} {
+				for _, mat := range []bool{false, true} {
+					for _, nrows := range []int{3, 40} {
+						idx++
+						if !vt.Mine(idx) {
+							continue
+						}
+						c := sharedCase{nshard, nrows, mat, a, b}
+						rec.Case(a != b, vt.Hash("shared", nshard, nrows, mat, a, b), "pair:"+progen.SharedKinds[a]+"+"+progen.SharedKinds[b])
+						if a != b && rec.WantSample("shared") {
+							rec.Sample("shared", map[string]interface{}{"case": c, "a": progen.SharedKinds[a], "b": progen.SharedKinds[b]})
+						}
+						if err, sig := h.runProgram(progen.EnumShared(nshard, nrows, mat, a, b)); err != nil {
+							if !failed[sig] {
+								failed[sig] = true
+								rec.Violation(tShared, sig, err.Error(), c)
+								t.Errorf("%+v (%s, %s): %v", c, progen.SharedKinds[a], progen.SharedKinds[b], err)
+							}
+						}
+					}
+				}
+			}
+		}
+	}
+	rec.Exhaustive = true
+}
